@@ -359,15 +359,104 @@ func compensated(fn *ssa.Function, call ssa.CallInstruction, effs []Effect) bool
 		}
 		return true
 	}
+	// positions are compared in terms of the state before the first change: LEN0(x) is len(x) read before it,
+	// LEN1(x) one read after it
+	type nform struct {
+		base string
+		off  int64
+	}
+	var nf func(v ssa.Value, d int) nform
+	nf = func(v ssa.Value, d int) nform {
+		v = ir.ResolveCell(v)
+		if d > 8 {
+			return nform{ir.Sym(v), 0}
+		}
+		if k, isK := ir.ConstInt(v); isK {
+			return nform{"", k}
+		}
+		switch x := v.(type) {
+		case *ssa.BinOp:
+			if k, isK := ir.ConstInt(x.Y); isK && (x.Op == token.ADD || x.Op == token.SUB) {
+				n := nf(x.X, d+1)
+				if x.Op == token.SUB {
+					k = -k
+				}
+				return nform{n.base, n.off + k}
+			}
+		case *ssa.Call:
+			if b, ok := x.Call.Value.(*ssa.Builtin); ok && b.Name() == "len" {
+				if ld, ok := x.Call.Args[0].(*ssa.UnOp); ok && ld.Op == token.MUL {
+					tag := "LEN0:"
+					if postState(x) && before[locKey(ir.Sym(ld.X))] {
+						tag = "LEN1:"
+					}
+					return nform{tag + locKey(ir.Sym(ld.X)), 0}
+				}
+			}
+		}
+		return nform{ir.Sym(v), 0}
+	}
+	firstIndex := func(addr ssa.Value) (ssa.Value, bool) {
+		for i := 0; i < 8; i++ {
+			switch x := addr.(type) {
+			case *ssa.FieldAddr:
+				addr = x.X
+			case *ssa.IndexAddr:
+				return x.Index, true
+			case *ssa.UnOp:
+				if x.Op != token.MUL {
+					return nil, false
+				}
+				addr = x.X
+			case *ssa.Phi:
+				return nil, false
+			default:
+				// a pointer variable (pe := &c.path[i]): look through its single definition
+				if r := ir.ResolveCell(addr); r != addr {
+					addr = r
+					continue
+				}
+				return nil, false
+			}
+		}
+		return nil, false
+	}
 	for _, b := range fn.Blocks {
 		if !nilFactOn(b, errV, false) {
 			continue
 		}
 		for _, ins := range b.Instrs {
-			if st, ok := ins.(*ssa.Store); ok && before[locKey(ir.Sym(st.Addr))] {
-				self := locKey(ir.Sym(st.Addr))
-				if !intLeavesOK(st.Addr, self, 0) || !intLeavesOK(st.Val, self, 0) {
+			st, ok := ins.(*ssa.Store)
+			if !ok || !before[locKey(ir.Sym(st.Addr))] {
+				continue
+			}
+			self := locKey(ir.Sym(st.Addr))
+			if !intLeavesOK(st.Addr, self, 0) || !intLeavesOK(st.Val, self, 0) {
+				return false
+			}
+			for _, fw := range effStores {
+				if locKey(ir.Sym(fw.Addr)) != self {
+					continue
+				}
+				// the same element
+				fi, fok := firstIndex(fw.Addr)
+				ui, uok := firstIndex(st.Addr)
+				if fok && uok && nf(fi, 0) != nf(ui, 0) {
 					return false
+				}
+				// a list that was appended to is cut back to its old length
+				if _, isSlice := fw.Val.Type().Underlying().(*types.Slice); isSlice {
+					if ap, ok := fw.Val.(*ssa.Call); ok {
+						if bi, ok := ap.Call.Value.(*ssa.Builtin); ok && bi.Name() == "append" {
+							sl, isSl := st.Val.(*ssa.Slice)
+							if !isSl || sl.High == nil || (sl.Low != nil && nf(sl.Low, 0) != nform{"", 0}) {
+								return false
+							}
+							if nf(sl.High, 0) != (nform{"LEN0:" + self, 0}) {
+								return false
+							}
+						}
+					}
 				}
 			}
 		}
